@@ -9,3 +9,4 @@ package sighash
 //@   ensures[C02.has_with_mask] (= result (= (mod f 32) shf))
 //@ func sighash.Flag.Has
 //@   pure
+//@   ensures[C02.has_forkid] (=> (= shf 64) (= result (= (mod (div f 64) 2) 1)))
